@@ -202,8 +202,14 @@ func collectBlockDeps(block *BlockStmt, locals map[string]bool, add func(string)
 	if block == nil {
 		return
 	}
+	// A block opens a scope: names declared inside it are not visible after it,
+	// so later references to the same name may be module-scope references.
+	inner := make(map[string]bool, len(locals)+4)
+	for name := range locals {
+		inner[name] = true
+	}
 	for _, s := range block.Statements {
-		collectStmtDeps(s, locals, add)
+		collectStmtDeps(s, inner, add)
 	}
 }
 
@@ -241,16 +247,21 @@ func collectStmtDeps(s Stmt, locals map[string]bool, add func(string)) {
 	case *BlockStmt:
 		collectBlockDeps(s, locals, add)
 	case *ForStmt:
+		// The loop variable is scoped to the for statement.
+		forLocals := make(map[string]bool, len(locals)+1)
+		for name := range locals {
+			forLocals[name] = true
+		}
 		if s.Init != nil {
-			collectStmtDeps(s.Init, locals, add)
+			collectStmtDeps(s.Init, forLocals, add)
 		}
 		if s.Condition != nil {
-			collectExprDeps(s.Condition, locals, add)
+			collectExprDeps(s.Condition, forLocals, add)
 		}
 		if s.Update != nil {
-			collectStmtDeps(s.Update, locals, add)
+			collectStmtDeps(s.Update, forLocals, add)
 		}
-		collectBlockDeps(s.Body, locals, add)
+		collectBlockDeps(s.Body, forLocals, add)
 	case *WhileStmt:
 		collectExprDeps(s.Condition, locals, add)
 		collectBlockDeps(s.Body, locals, add)
